@@ -13,6 +13,7 @@ Correspondence through the extern "C" functions of the rodbus-ffi rlib on loopba
 import re
 
 import vlib
+from checks import p5_system
 
 STD = {1: 'IllegalFunction', 2: 'IllegalDataAddress', 3: 'IllegalDataValue', 4: 'ServerDeviceFailure', 5: 'Acknowledge',
        6: 'ServerDeviceBusy', 8: 'MemoryParityError', 10: 'GatewayPathUnavailable', 11: 'GatewayTargetDeviceFailedToRespond'}
@@ -177,6 +178,7 @@ def gen_client_cases(ctx, thorough):
         cases.append(f'noconn {op} 2000 1')
         cases.append(f'shutdown {op} 1000 1')
         cases.append(f'qfull {op} 1000 1')
+        cases.append(f'shutdownq {op} 1000 1')
         cases.append(f'badparam {op} 2000 1 null')
     for op in READS:
         cases.append(f'badparam {op} 2000 0 zero')
@@ -296,6 +298,15 @@ def check_client(ctx, cases):
             model_expect.append(('Ok/failure:Shutdown', c, i))
             model_cases.append(f'("{rq}", env [] None false ChannelClosed [])')
             model_expect.append(('Shutdown/failure:Shutdown', c, i))
+        elif sc == 'shutdownq':
+            n_calls += 3
+            classes['shutdown-queued'] = classes.get('shutdown-queued', 0) + 1
+            want = 'Ok/failure:Shutdown;Ok/failure:Shutdown;Ok/failure:Shutdown;before=0;after-destroy=1/1/1'
+            if ffi != want:
+                fail('completion-on-shutdown-queued.' + rq, f'{rq}: runtime destroyed with one request in flight and two queued: got {ffi}; expected {want}', c, i, spec=want)
+            for _ in range(3):
+                model_cases.append(f'("{rq}", env [] None false Accepted [TDropEarly])')
+                model_expect.append(('Ok/failure:Shutdown', c, i))
         elif sc == 'qfull':
             n_calls += 3
             classes['queue-full'] = classes.get('queue-full', 0) + 1
@@ -413,7 +424,7 @@ def check_authz(ctx, cases):
 
 def run(ctx):
     ctx.translate(['FfiTables.v'])
-    models_ok = ctx.build_models(['Base.Show', 'Model.Ffi', 'Spec.FfiSpec'])
+    models_ok = ctx.build_models(['Base.Show', 'Model.Ffi', 'Spec.FfiSpec', 'Model.FfiWire'])
     ctx.prove()
     if ctx.tier == 'thorough':
         ctx.coqchk()
@@ -438,17 +449,19 @@ def run(ctx):
     ac, a_samples = {}, []
     if authz_cases:
         ac, a_samples = check_authz(ctx, authz_cases)
+    n_sys, sys_classes, sys_samples = p5_system.check_system(ctx, 'write', 1500 if ctx.quick() else 12000, 'writes')
     if not ctx.replay:
-        need = ['exception-standard', 'exception-raw', 'timeout', 'bad-response', 'bad-frame', 'io', 'ok', 'no-connection', 'shutdown', 'queue-full', 'states']
+        need = ['exception-standard', 'exception-raw', 'timeout', 'bad-response', 'bad-frame', 'io', 'ok', 'no-connection', 'shutdown', 'shutdown-queued', 'queue-full', 'states']
         missing = [k for k in need if cc.get(k, 0) < 1] + [f'{k}.{x}' for k in KINDS for x in ('success', 'standard', 'raw', 'unset') if sc.get(f'{k}.{x}', 0) < 1]
         if missing:
             ctx.oblige('generator-reaches-expected-classes', False, str(missing))
     ctx.coverage.update({
-        'evaluations': len(server_cases) + ncalls + len(authz_cases),
+        'evaluations': len(server_cases) + ncalls + len(authz_cases) + n_sys,
         'distinct_nontrivial': len(set(server_cases)) + len(set(client_cases)) + len(set(authz_cases)),
         'rule': 'server half: one case = (write kind, callback set/unset, WriteResult success/exception/raw, address, values) run against a live C-ABI server and a live Rust API server; client half: one scenario = (scripted peer behaviour selected by the start address: exception code 0..255 / silent / malformed / bad MBAP / close / correct reply; or no connection / runtime shutdown / queue overfill / parameter validation) x one of the eight requests, run through the C ABI and through the Rust API; TLS+authz: (server api, client api, request, handler decision allow/deny/unset, unit, range) over a real TLS session with the role-bearing client certificate; every case makes a real request, so all are non-trivial; distinct by case line',
         'samples': [list(x) for x in s_samples[:3]] + [list(x) for x in c_samples[:2]] + [list(x) for x in c_samples[-6:-3]] + [list(x) for x in a_samples[:2]],
-        'input_classes': {'server': sc, 'client': cc, 'tls_authz': ac},
+        'input_classes': {'server': sc, 'client': cc, 'tls_authz': ac, 'system_wire_replies': sys_classes},
+        'system_wire_scenarios': n_sys,
         'exhaustive': False,
         'c_abi_client_calls': ncalls,
     })
